@@ -110,6 +110,9 @@ def task_point_source(prop):
         col.canary_eq('canary/sum_of_weights_is_two', pcs_ + [I0[k] < n[k] - 1 for k in range(3)],
                       sum([s.read([I0[k] + o[k] for k in range(3)]) for o in itertools.product((0, 1), repeat=3)], ZERO), ONE + ONE,
                       side=[V[k](I0[k] + 1) - V[k](I0[k]) != 0 for k in range(3)])
+        # every store lands inside the array for EVERY position (also before the first / behind the last entry of a vector, i.e. in the
+        # first and last half cell of the component's own direction): no index below zero, none beyond the end
+        bounds_obligations(col, X, pcs_, prefix='bounds_for_every_position')
         # non-negativity for positions inside the vectors
         hb = pcs_ + [I0[k] < n[k] - 1 for k in range(3)] + [V[k](I0[k]) <= coo[k] for k in range(3)]
         for k, d in enumerate('xyz'):
